@@ -226,7 +226,7 @@ func (h *harness) sectionOsRelease() {
 	for _, t := range texts {
 		opOsr(h.ctx, h.r, []byte(t))
 	}
-	n := h.cfg.N(600, 40000)
+	n := h.cfg.N(3000, 40000)
 	for i := 0; i < n && !h.r.Stop(); i++ {
 		t := texts[h.rnd.Intn(len(texts))]
 		for k := 1 + h.rnd.Intn(3); k > 0; k-- {
@@ -323,7 +323,7 @@ func (h *harness) noteScan(distro, rel string, d *claircore.Distribution) {
 func (h *harness) sectionScan() {
 	ctx, r := h.ctx, h.r
 	const osr, issue, lsb = "etc/os-release", "etc/issue", "etc/lsb-release"
-	nm := h.cfg.N(12, 500) // mutated variants per fixture
+	nm := h.cfg.N(40, 500) // mutated variants per fixture
 	mut := func(b []byte) []byte {
 		t := string(b)
 		for k := 1 + h.rnd.Intn(2); k > 0; k-- {
